@@ -1361,3 +1361,15 @@ package ring
 
 //@ storesvia TernarySampler.sampleSparse pol f
 //@   property C17
+
+//@ afunc Ring.AddScalarBigint
+//@   trusted abstract level: p2 receives some ring element (value not tracked)
+//@   assigns p2
+
+//@ afunc Ring.MulScalarBigint
+//@   trusted abstract level: p2 receives some ring element (value not tracked)
+//@   assigns p2
+
+//@ afunc Ring.MulScalarBigintThenAdd
+//@   trusted abstract level: p2 receives some ring element (value not tracked)
+//@   assigns p2
